@@ -8,6 +8,7 @@ floating-point unit conversion does not move a printed digit is the magnitude bo
 (`mag ≤ 10^15 < 2^52/3`) and checks on the real code (bit-identical generations in the search).
 -/
 import Iodata.Lemmas.Fmt.Xyz
+import Iodata.Lemmas.Fmt.Sdf
 import Iodata.Gen.Layouts
 
 namespace Iodata.Props.C15
@@ -31,6 +32,29 @@ theorem xyz_generations (T : Tables) (L : Xyz.Layout) (hL : Xyz.LayoutOK L) (o o
     rw [this] at h₁; exact (Except.ok.inj h₁).symm
   have h2 := Xyz.load_dump T L hL o₁ (e ▸ Xyz.dom_norm T L hL o h)
   have hid : Xyz.norm L o₁ = o₁ := by rw [e]; exact Xyz.norm_idem L hL o
+  rw [hid] at h2
+  refine ⟨h2, ?_⟩
+  intro o₂ h3
+  rw [h2] at h3
+  rw [← Except.ok.inj h3]
+
+/-! ## SDF -/
+
+/-- SDF: the reloaded object is a fixed point of the normaliser and stays in the (partial) domain. -/
+theorem sdf_norm_stable (T : Tables) (L : Sdf.Layout) (hL : Sdf.LayoutOK L) (o : Sdf.Obj) (h : Sdf.Dom T L o) :
+    Sdf.norm L (Sdf.norm L o) = Sdf.norm L o ∧ Sdf.Dom T L (Sdf.norm L o) :=
+  ⟨Sdf.norm_idem L hL o, Sdf.dom_norm T L hL o h⟩
+
+/-- SDF, partial (objects whose fields do not touch, see C02 `sdf_load_dump_partial`): generations 2 and 3 coincide. -/
+theorem sdf_generations_partial (T : Tables) (L : Sdf.Layout) (hL : Sdf.LayoutOK L) (o o₁ : Sdf.Obj) (h : Sdf.Dom T L o)
+    (h₁ : Sdf.load T L (Sdf.dump T L o) = .ok o₁) :
+    Sdf.load T L (Sdf.dump T L o₁) = .ok o₁ ∧
+    ∀ o₂, Sdf.load T L (Sdf.dump T L o₁) = .ok o₂ → Sdf.dump T L o₂ = Sdf.dump T L o₁ := by
+  have e : o₁ = Sdf.norm L o := by
+    have := Sdf.load_dump T L hL o h
+    rw [this] at h₁; exact (Except.ok.inj h₁).symm
+  have h2 := Sdf.load_dump T L hL o₁ (e ▸ Sdf.dom_norm T L hL o h)
+  have hid : Sdf.norm L o₁ = o₁ := by rw [e]; exact Sdf.norm_idem L hL o
   rw [hid] at h2
   refine ⟨h2, ?_⟩
   intro o₂ h3
